@@ -90,6 +90,96 @@ Example C09_example_emitter_nonvacuous :
    EndPrompt 1 1 3 3 8; EndCmdloop 1 1 3; EndTraceCall 1 1 3; EndTrace 1 2; EndTrace 1 1].
 Proof. vm_compute. split; reflexivity. Qed.
 
+(** ------------------------------------------------------------------------------------------
+    TIE to the code of /repo.  Gen/EmitterSkel.v is regenerated from the source at every check
+    (translate/emitter_skeleton.py: the statement trees of Repeater, Factory._context,
+    TraceCallHandler, TaskAndThreadKeeper, TaskOrThreadToTraceMapper, CmdloopHook, PromptFunc,
+    CustomizedPdb.cmdloop, the counters of count.py, the registration order); Events/Interp.v
+    interprets the trees under the structured actor programs and schedules of Events/Emitter.v;
+    Events/Tie.v proves the simulation.  The theorems below are about the REGENERATED code. *)
+From Coq Require Import String.
+From NL Require Import Events.Syntax Gen.EmitterSkel Events.Interp Events.Tie.
+
+(** for ALL programs and ALL schedules the regenerated code puts exactly the model's stream on the queue *)
+Theorem C09_tie_same_stream : forall r ps sched, iemitted r ps sched = emitted r ps sched.
+Proof. exact tie_same_stream. Qed.
+
+(** ... in lock step: related states after every schedule (counters, every actor at the computed
+    state of its program point, the dicts / sets holding under each task / trace number what that
+    program point says, nothing under trace numbers not yet handed out) *)
+Theorem C09_tie_simulation : forall r ps sched,
+  Rsys r (fst (irun r (iinit ps) sched)) (fst (run r (init_sys ps) sched)).
+Proof. exact (fun r ps sched => proj2 (sim r ps sched)). Qed.
+
+(** hence, stated on the regenerated code: at any moment (a kill) the stream is accepted by the prefix recogniser *)
+Theorem C09_tie_prefix : forall r ps sched, wf_prefix r (iemitted r ps sched) = true.
+Proof. exact tie_prefix. Qed.
+
+(** ... the code has finished exactly when the model has ... *)
+Theorem C09_tie_finished : forall r ps sched, ifinished r ps sched = finished r ps sched.
+Proof. exact tie_finished. Qed.
+
+(** ... and then the stream is well formed *)
+Theorem C09_tie_wf : forall r ps sched, ifinished r ps sched = true -> WF r (iemitted r ps sched).
+Proof. exact tie_wf. Qed.
+
+(** every start event's end is put in a `finally`, with the numbers read at ENTRY: whether the body of
+    the `with` returns or raises ([thrown]), and whatever the hooks would answer after the yield, the
+    generator puts exactly start then end, with the same run / trace / trace-call / prompt numbers *)
+Theorem C09_tie_end_in_finally_trace_call : forall thrown sent hk r tci,
+  map nums (gen_run thrown sent hk r f_Repeater_on_trace_call [tci]) =
+  [("OnStartTraceCall"%string, [VNum r; hk false "current_trace_no"%string; field tci "trace_call_no"; VBad]);
+   ("OnEndTraceCall"%string, [VNum r; hk false "current_trace_no"%string; field tci "trace_call_no"; VBad])].
+Proof. exact tie_end_in_finally_trace_call. Qed.
+
+Theorem C09_tie_end_in_finally_cmdloop : forall thrown sent hk r,
+  map nums (gen_run thrown sent hk r f_Repeater_on_cmdloop []) =
+  [("OnStartCmdloop"%string, [VNum r; hk false "current_trace_no"%string; hk false "current_trace_call_no"%string; VBad]);
+   ("OnEndCmdloop"%string, [VNum r; hk false "current_trace_no"%string; hk false "current_trace_call_no"%string; VBad])].
+Proof. exact tie_end_in_finally_cmdloop. Qed.
+
+Theorem C09_tie_end_in_finally_prompt : forall thrown sent hk r pn txt,
+  map nums (gen_run thrown sent hk r f_Repeater_on_prompt [pn; txt]) =
+  [("OnStartPrompt"%string, [VNum r; hk false "current_trace_no"%string; field (hk false "current_trace_call_info"%string) "trace_call_no"; pn]);
+   ("OnEndPrompt"%string, [VNum r; hk false "current_trace_no"%string; field (hk false "current_trace_call_info"%string) "trace_call_no"; pn])].
+Proof. exact tie_end_in_finally_prompt. Qed.
+
+(** trace numbers, trace-call numbers and prompt numbers each come from ONE counter object created once
+    per run (shared by all traces), starting at 1, stepping by 1; nothing else in nextline/spawned puts on the
+    outgoing queue *)
+Theorem C09_tie_counters_per_run :
+  counter_decl CTrace = (PerRun, 1) /\ counter_decl CCall = (PerRun, 1) /\ counter_decl CPrompt = (PerRun, 1) /\
+  counter_step = 1 /\ other_queue_out_putters = 0%nat.
+Proof. exact tie_counters_per_run. Qed.
+
+(** the current trace call is kept PER TRACE: in every reachable state, whatever the other threads / tasks
+    are doing, the first-result hooks answer thread / task i with its own trace number, whether IT is on a
+    trace call, and its own trace-call number *)
+Theorem C09_tie_current_call_per_trace : forall r ps sched i a,
+  nth_error (s_actors (fst (run r (init_sys ps) sched))) i = Some a -> started a ->
+  let sh := is_sh (fst (irun r (iinit ps) sched)) in
+  eval EFUEL (ctx_of r i sh) [] (EHook "current_trace_no") = VNum (a_t a) /\
+  eval EFUEL (ctx_of r i sh) [] (EHook "is_on_trace_call") = VBool (in_call a) /\
+  eval EFUEL (ctx_of r i sh) [] (EHook "current_trace_call_no") = (if in_call a then VNum (a_c a) else VNone).
+Proof. exact tie_current_call_per_trace. Qed.
+
+(** the guard of the command-loop hook: Pdb's command loop entered by a thread / task that is between trace
+    calls (whatever the OTHER threads / tasks are on) runs through CustomizedPdb.cmdloop() without a visible
+    action and without reading a command, and leaves the dicts / sets as they were *)
+Theorem C09_tie_stray_cmdloop_refused : forall r ps sched i a k qs,
+  nth_error (s_actors (fst (run r (init_sys ps) sched))) i = Some a -> a_pc a = AIdle k ->
+  let sh := is_sh (fst (irun r (iinit ps) sched)) in
+  exists sh' lg, settle SFUEL key_eqb r i sh (stray_cmdloop qs k) [] = (K_idle k, sh', true, lg) /\
+                 view (sh_st sh') (KTask i) = view (sh_st sh) (KTask i) /\
+                 view (sh_st sh') (KNum (a_t a)) = view (sh_st sh) (KNum (a_t a)).
+Proof. exact tie_stray_cmdloop_refused. Qed.
+
+(** non-vacuity: the interpreter of the regenerated code runs the example above to the end *)
+Example C09_tie_example_nonvacuous :
+  ifinished 1 ex_progs ex_sched = true /\ iemitted 1 ex_progs ex_sched = emitted 1 ex_progs ex_sched /\
+  List.length (iemitted 1 ex_progs ex_sched) = 21%nat.
+Proof. vm_compute. repeat split; reflexivity. Qed.
+
 Print Assumptions C09_recogniser_correct.
 Print Assumptions C09_emitter_wf.
 Print Assumptions C09_emitter_prefix.
@@ -97,3 +187,14 @@ Print Assumptions C09_prefix_closed.
 Print Assumptions C09_prefix_sound.
 Print Assumptions C09_prefix_complete.
 Print Assumptions C09_trace_language.
+Print Assumptions C09_tie_same_stream.
+Print Assumptions C09_tie_simulation.
+Print Assumptions C09_tie_prefix.
+Print Assumptions C09_tie_finished.
+Print Assumptions C09_tie_wf.
+Print Assumptions C09_tie_end_in_finally_trace_call.
+Print Assumptions C09_tie_end_in_finally_cmdloop.
+Print Assumptions C09_tie_end_in_finally_prompt.
+Print Assumptions C09_tie_counters_per_run.
+Print Assumptions C09_tie_current_call_per_trace.
+Print Assumptions C09_tie_stray_cmdloop_refused.
